@@ -228,6 +228,13 @@ class ModelBackend(Backend):
     def mkfile(self, rel, cid, size=5, mtime=DEFAULT_MTIME, layout="dense"):
         return self.world.add_file(self.p(rel), cid, size, mtime)
 
+    def symlink(self, target_rel, link_rel):
+        """a symbolic link at link_rel pointing to target_rel (absolute target)"""
+        self.world.add_link(self.p(link_rel), self.p(target_rel))
+
+    def islink(self, rel):
+        return self.world.islink(self.p(rel))
+
     def write_text(self, rel, text):
         self.world.add_text_file(self.p(rel), text)
 
@@ -794,6 +801,15 @@ class RealBackend(Backend):
         os.utime(path, (mtime, mtime))
         self._stamp_dirs(os.path.dirname(path))
 
+    def symlink(self, target_rel, link_rel):
+        os.makedirs(os.path.dirname(self.p(link_rel)), exist_ok=True)
+        os.symlink(self.p(target_rel), self.p(link_rel))
+        os.utime(self.p(link_rel), (DEFAULT_MTIME, DEFAULT_MTIME), follow_symlinks=False)
+        self._stamp_dirs(os.path.dirname(self.p(link_rel)))
+
+    def islink(self, rel):
+        return os.path.islink(self.p(rel))
+
     def write_text(self, rel, text):
         path = self.p(rel)
         os.makedirs(os.path.dirname(path), exist_ok=True)
@@ -948,7 +964,8 @@ class RealBackend(Backend):
         top = self.p(rel)
         for r, ds, fs in os.walk(top):
             for n in (ds if want_dirs else fs):
-                out.append(os.path.relpath(os.path.join(r, n), self.base))
+                if not os.path.islink(os.path.join(r, n)):  # (symbolic links are neither files nor directories of the tree)
+                    out.append(os.path.relpath(os.path.join(r, n), self.base))
         return sorted(out)
 
     def walk_files(self, rel=""):
@@ -970,7 +987,9 @@ class RealBackend(Backend):
             for n in ds + fs:
                 q = os.path.join(r, n)
                 st = os.lstat(q)
-                if os.path.isdir(q):
+                if os.path.islink(q):
+                    out[os.path.relpath(q, self.base)] = ("link", os.readlink(q), None, None)
+                elif os.path.isdir(q):
                     out[os.path.relpath(q, self.base)] = ("dir", None, None, None if self._volatile_dir(q) else st.st_mtime_ns)
                 else:
                     with open(q, "rb") as f:
